@@ -113,7 +113,8 @@ def c07(ctx):
                 for lay in (layouts(rng, blen) if framing == "chunked" else [[blen]]):
                     for _ in range(reps):
                         trailers = b"X-T: 1\r\n" if framing == "chunked" and rng.random() < 0.3 else b""
-                        stream = drv.frame(body, framing, lay, trailers, ext=rng.random() < 0.5) + drv.FOLLOWER
+                        method = rng.choice([b"POST", b"POST", b"GET", b"HEAD", b"PUT", b"DELETE"])
+                        stream = drv.frame(body, framing, lay, trailers, ext=rng.random() < 0.5, method=method) + drv.FOLLOWER
                         k = rng.randint(0, 5)
                         cuts = sorted(rng.sample(range(1, len(stream)), min(k, len(stream) - 1)))
                         if rng.random() < 0.2:
@@ -121,10 +122,13 @@ def c07(ctx):
                             if len(cuts) > 3000:
                                 cuts = cuts[::7]
                         prog = rand_program(rng, 6 if ctx.quick else 30)
+                        if rng.random() < 0.15:
+                            prog = []            # the application ignores its input altogether
                         ev = drv.run_program(stream, cuts, prog, body, source=rng.choice(["iter", "sock"]))
                         traces.append({"blen": blen, "nls": nls, "ev": ev})
                         metas.append({"kind": "real", "blen": blen, "nl": nlstyle, "framing": framing, "layout": lay[:10],
-                                      "prog": prog, "ncuts": len(cuts), "cuts": cuts[:20], "trailers": bool(trailers)})
+                                      "prog": prog, "ncuts": len(cuts), "cuts": cuts[:20], "trailers": bool(trailers),
+                                      "method": method.decode()})
     verdicts, stats = tlc.validate_batch("BodyTrace", "BodyTrace.cfg", traces, name="BodyTrace_C07", chunk=3000)
     ctx.add_traces(len(traces), stats)
     for t, m, (v, step) in zip(traces, metas, verdicts):
